@@ -671,10 +671,21 @@ def splice_fn(em, toks, fn, fc, ctx, marks):
                     if k >= len(loops) or loops[k]['in'] is None:
                         raise InfraError('fn %s: for-loop %d not found' % (fn.name, k))
                     ins(loops[k]['in'] + 1, ' ' + name + ':')
+    dropped = None
+    if ctx in DEMOTED and fn.body and fn.body[1] > fn.body[0] + 1:
+        # the front end rejects this function's current text: its body is not shown to the verifier at all (rustc would
+        # still type-check an external_body); the function is reported undecided and excluded from the fidelity guard
+        dropped = (fn.body[0] + 1, fn.body[1])
     for q in range(fn.lo, fn.hi):
-        for text in ins_before.get(q, ()):
-            em.add(text)
+        if dropped and dropped[0] <= q < dropped[1]:
+            continue
+        if dropped and q == dropped[1]:
+            em.add(' unimplemented!() ')
+        else:
+            for text in ins_before.get(q, ()):
+                em.add(text)
         em.tok(toks[q])
+    return dropped
 
 
 def body_hash(toks, fn):
@@ -689,6 +700,11 @@ def body_hash(toks, fn):
 
 _OUTSIDE = None
 FORCE_EXTERNAL = set()
+# functions whose current text (with its proof annotations) the verifier's front end rejects: given to the verifier
+# WITHOUT body (contract assumed for callers, the function itself reported undecided) so that the rest of the unit is
+# still verified
+DEMOTED = set()
+DEMOTE_REASON = {}
 
 
 def outside_subset():
@@ -701,6 +717,13 @@ def outside_subset():
 
 def effective_fc(fc, ctx, toks, fn):
     """(FnC to splice, tried_body): see FnC.try_body"""
+    if ctx in DEMOTED and fn.body:
+        import copy
+        fc2 = copy.copy(fc) if fc is not None else FnC()
+        fc2.external_body = True
+        fc2.stmts, fc2.loops, fc2.iters = {}, {}, {}
+        fc2.note = (fc2.note + ' ' if fc2.note else '') + '[front end rejects the current text of this function: body not verified, undecided]'
+        return fc2, False
     if fc is None or not fc.external_body or not fn.body or not getattr(fc, 'try_body', True):
         return fc, False
     if os.environ.get('VERIF_RECORD_OUTSIDE'):
@@ -772,6 +795,7 @@ def gen_mod(mod, sources):
         n_item += 1
         item_id = '%s:%d' % (mod.name, n_item)
         ex.items.append((item_id, [t.text for t in toks], sel.anchor, mod.file))
+        dropped_ranges = []
         try:
             pit = R.parse_items(toks, 0, len(toks))
         except LexError as e:
@@ -799,10 +823,18 @@ def gen_mod(mod, sources):
             for m in p.members:
                 if m.kind == 'fn':
                     fc = sel.fns.get(m.name)
-                    if callable(fc):
-                        fc = fc(toks, m)
                     seen.add(m.name)
                     ctx = '%s::%s' % (base_ctx, m.name)
+                    if callable(fc):
+                        fc_maker = fc
+                        try:
+                            fc = fc(toks, m)
+                        except InfraError as e_:
+                            # the contract of this function is read mechanically from its body (e.g. Debug text) and the
+                            # current body is outside the readable shape: the function is undecided, the unit goes on
+                            DEMOTED.add(ctx)
+                            DEMOTE_REASON[ctx] = str(e_)[:300]
+                            fc = FnC(inherits=True, props=getattr(fc_maker, 'props', ()))
                     if fc is None and m.body:
                         if sel.rest == 'external':
                             fc = FnC(external_body=True, note='not under contract')
@@ -812,7 +844,9 @@ def gen_mod(mod, sources):
                             fc = FnC(inherits=True, props=sel.rest_props,
                                      note='no contract file: checked against the inherited trait contract only')
                     fc, tried = effective_fc(fc, ctx, toks, m)
-                    splice_fn(em, toks, m, fc, ctx, ex.marks)
+                    dr = splice_fn(em, toks, m, fc, ctx, ex.marks)
+                    if dr:
+                        dropped_ranges.append(dr)
                     orig = [o for o in it.members if o.kind == 'fn' and o.name == m.name][0]
                     ex.functions.append({
                         'tried_body': tried,
@@ -838,7 +872,9 @@ def gen_mod(mod, sources):
                 raise InfraError('contract for unknown fn in %s' % sel.anchor)
             ctx = base_ctx.replace('fn_', '')
             fc, tried = effective_fc(fc, ctx, toks, p)
-            splice_fn(em, toks, p, fc, ctx, ex.marks)
+            dr = splice_fn(em, toks, p, fc, ctx, ex.marks)
+            if dr:
+                dropped_ranges.append(dr)
             ex.functions.append({
                 'tried_body': tried,
                 'id': ctx, 'file': mod.file, 'anchor': sel.anchor, 'line': src.toks[it.kw].line,
@@ -849,6 +885,9 @@ def gen_mod(mod, sources):
         else:
             for q in range(p.lo, p.hi):
                 em.tok(toks[q])
+        if dropped_ranges:
+            keep = [t.text for i_, t in enumerate(toks) if not any(a <= i_ < b for a, b in dropped_ranges)]
+            ex.items[-1] = (item_id, keep, sel.anchor, mod.file)
         em.raw('/*@end %s*/\n' % item_id)
     em.raw('\n%s\n} // mod %s\n' % (mod.text_after, mod.name))
     ex.text = em.text()
